@@ -164,6 +164,24 @@ func runC07(r *Report) {
 		}
 		reg[top.Name()] = true
 		id := mapDeletes(f, "clientIDMap")
+		// the index removal may be delegated to a same-package helper (`r.unindexLocked(conn)`)
+		Instrs(f, func(in ssa.Instruction) {
+			if hc, ok := in.(*ssa.Call); ok {
+				if h := hc.Common().StaticCallee(); h != nil && h.Pkg == f.Pkg && h != f && len(h.Blocks) > 0 {
+					if len(mapDeletes(h, "clientIDMap")) > 0 {
+						id = append(id, in)
+					} else {
+						Instrs(h, func(in2 ssa.Instruction) {
+							if hc2, ok := in2.(*ssa.Call); ok {
+								if h2 := hc2.Common().StaticCallee(); h2 != nil && h2.Pkg == f.Pkg && len(h2.Blocks) > 0 && len(mapDeletes(h2, "clientIDMap")) > 0 {
+									id = append(id, in)
+								}
+							}
+						})
+					}
+				}
+			}
+		})
 		paired := false
 		for _, c := range cd {
 			for _, i := range id {
@@ -224,6 +242,49 @@ func runC07(r *Report) {
 			}
 		})
 		dels := mapDeletes(ua, "clientIDMap")
+		// the sweep may live in a helper (`r.unindexOthersLocked(conn, clientID)`): its parameters are
+		// read as the arguments UpdateAuth passes
+		var sweepCall *ssa.Call
+		if rng == nil {
+			Instrs(ua, func(in ssa.Instruction) {
+				hc, ok := in.(*ssa.Call)
+				if !ok || sweepCall != nil {
+					return
+				}
+				h := hc.Common().StaticCallee()
+				if h == nil || h.Pkg != ua.Pkg || len(h.Blocks) == 0 {
+					return
+				}
+				hasRange := false
+				Instrs(h, func(in2 ssa.Instruction) {
+					if rg, ok := in2.(*ssa.Range); ok {
+						if _, f, _, ok := FieldOf(rg.X); ok && f == "clientIDMap" {
+							hasRange = true
+						}
+					}
+				})
+				if hasRange && len(mapDeletes(h, "clientIDMap")) > 0 {
+					sweepCall = hc
+				}
+			})
+			if sweepCall != nil {
+				rng = sweepCall
+				dels = mapDeletes(sweepCall.Common().StaticCallee(), "clientIDMap")
+			}
+		}
+		argOf := func(v ssa.Value) ssa.Value {
+			if sweepCall == nil {
+				return v
+			}
+			if p, ok := stripValue(v).(*ssa.Parameter); ok {
+				for i, q := range sweepCall.Common().StaticCallee().Params {
+					if q == p && i < len(sweepCall.Call.Args) {
+						return sweepCall.Call.Args[i]
+					}
+				}
+			}
+			return v
+		}
 		ok := upd != nil && rng != nil && len(dels) > 0 && !ReachesWithout(ua, upd, func(in ssa.Instruction) bool { return in == rng })
 		// the sweep removes exactly the OTHER keys of this connection: delete under `entry == conn` and
 		// `key != newID`
@@ -234,10 +295,10 @@ func runC07(r *Report) {
 				if !isB {
 					continue
 				}
-				if ((bo.Op == token.EQL && ft.Pol) || (bo.Op == token.NEQ && !ft.Pol)) && (fromMap(bo.X, "clientIDMap", 0) || fromMap(bo.Y, "clientIDMap", 0)) && (fromMap(bo.X, "connMap", 0) || fromMap(bo.Y, "connMap", 0)) {
+				if ((bo.Op == token.EQL && ft.Pol) || (bo.Op == token.NEQ && !ft.Pol)) && (fromMap(bo.X, "clientIDMap", 0) || fromMap(bo.Y, "clientIDMap", 0)) && (fromMap(argOf(bo.X), "connMap", 0) || fromMap(argOf(bo.Y), "connMap", 0)) {
 					same = true
 				}
-				if ((bo.Op == token.NEQ && ft.Pol) || (bo.Op == token.EQL && !ft.Pol)) && (originSummary(bo.X) == "param:clientID" || originSummary(bo.Y) == "param:clientID") {
+				if ((bo.Op == token.NEQ && ft.Pol) || (bo.Op == token.EQL && !ft.Pol)) && (originSummary(argOf(bo.X)) == "param:clientID" || originSummary(argOf(bo.Y)) == "param:clientID") {
 					other = true
 				}
 			}
